@@ -54,8 +54,12 @@ func (g *gen) validateStmt() {
 	// sink, the one through the false edge of each branch. When the false edge is the validated one (stored negation,
 	// err != nil), a sink behind the join is judged validated although the other branch reaches it too. With the
 	// finding recorded, the unvalidated branch of these shapes leaves the function, so that the join is only reached
-	// on the validated path; inside closures the shapes are not generated.
+	// on the validated path; inside closures, branches and loops the shapes (and the early return) are not generated.
 	leave := func() {}
+	if (k == 2 || k == 6 || k == 7) && g.off("validator-join-single-path") && g.depth > 1 {
+		// nested in a branch or loop: another arm can bypass the validator and join behind it
+		k = 1
+	}
 	if (k == 6 || k == 7) && g.off("validator-join-single-path") {
 		if g.closureDepth > 0 || g.inDefer {
 			k = 1
